@@ -84,6 +84,8 @@ class Engine:
         self.truncated = False
         self.ncalls = 0
         self.n_branch_unknown = 0   # branch feasibility queries answered `unknown`
+        self.soft_reasons = set()   # why the exploration is incomplete although no path / decision budget was exhausted
+        self.hard_truncated = False # a path, decision or time budget was exhausted
         self.max_branch_calls = 200000
         self.deadline = None        # wall-clock limit of one exploration (time.time() value); exceeding it truncates (reported as cut)
         self._fresh = 0
@@ -116,6 +118,7 @@ class Engine:
         """cond: z3 Bool -> Python bool; records the decision on the current path."""
         self.ncalls += 1
         if self.ncalls > self.max_branch_calls:
+            self.hard_truncated = True
             raise Abort("cut")          # a (concretely decided) loop that does not end: bounded like any other path
         cond = z3.simplify(cond)
         if z3.is_true(cond):
@@ -134,6 +137,7 @@ class Engine:
             self._record(cond, d)
             return d
         if self.pos >= self.max_decisions:
+            self.hard_truncated = True
             raise Abort("cut")
         rt = self.check(cond)
         rf = self.check(z3.Not(cond))
@@ -144,6 +148,7 @@ class Engine:
             # (reported as cut by every harness through `truncated`), never silently treated as infeasible
             self.n_branch_unknown += 1
             self.truncated = True
+            self.soft_reasons.add("the solver answered unknown to a branch feasibility query")
         if can_t and can_f:
             self.todo.append(self.prefix[: self.pos] + [False])
             d = True
@@ -189,6 +194,7 @@ class Engine:
         while self.todo:
             if len(results) >= self.max_paths or (self.deadline is not None and time.time() > self.deadline):
                 self.truncated = True
+                self.hard_truncated = True
                 break
             self.prefix = self.todo.pop()
             self.ncalls = 0
@@ -398,6 +404,9 @@ class SymNum:
     def _prod(self, o):
         d = self.deg + o.deg
         if d > MAX_DEGREE:
+            if _ENG is not None:
+                _ENG.truncated = True
+                _ENG.soft_reasons.add(f"a product of degree > {MAX_DEGREE} was not handed to the solver")
             raise Abort("cut")
         return d
 
@@ -525,7 +534,14 @@ class SymNum:
         if not self._num(o): return True
         return self._cmp(o, lambda a, b: a != b)
 
-    __hash__ = None
+    def __hash__(self):
+        # a symbolic number used as a dict / set key (a cache in the code under analysis): all proxies hash alike, so lookups among
+        # symbolic keys degrade to __eq__ chains that fork; a lookup against *concrete* keys stored earlier cannot see an equal one
+        # (different hash), i.e. the "hit" side is not explored -- the exploration is marked incomplete (reported as cut)
+        if _ENG is not None:
+            _ENG.truncated = True
+            _ENG.soft_reasons.add("a symbolic number was used as a dict / set key (lookups against concrete keys stored earlier are not modelled)")
+        return 0x5EED
 
     def __bool__(self):
         return _ENG.branch(self.e != 0)
@@ -633,6 +649,7 @@ def concretize(e, limit=48):
             if r == z3.unknown:
                 eng.n_branch_unknown += 1
                 eng.truncated = True
+                eng.soft_reasons.add("the solver answered unknown to a value query")
                 raise Abort("cut")
             if r != z3.sat:
                 raise Abort("infeasible")
@@ -645,6 +662,7 @@ def concretize(e, limit=48):
             eng.conc.pop(key, None)
         n += 1
         if n > limit:
+            eng.hard_truncated = True
             raise Abort("cut")
 
 
